@@ -209,6 +209,7 @@ func (t *Collection) SetItem(item *Item) (err error) {
 	defer t.freeNodeLoc(nloc)
 	r, err := t.store.union(t, root, nloc, &rnl.reclaimMark)
 	if err != nil {
+		t.reclaimMarkClear(root, &rnl.reclaimMark)
 		return err
 	}
 	rnlNew := t.mkRootNodeLoc(r)
@@ -254,6 +255,7 @@ func (t *Collection) Delete(key []byte) (wasDeleted bool, err error) {
 	t.store.ItemDecRef(t, i)
 	left, middle, right, err := t.store.split(t, root, key, &rnl.reclaimMark)
 	if err != nil {
+		t.reclaimMarkClear(root, &rnl.reclaimMark)
 		return false, err
 	}
 	defer t.freeNodeLoc(left)
@@ -264,6 +266,7 @@ func (t *Collection) Delete(key []byte) (wasDeleted bool, err error) {
 	}
 	r, err := t.store.join(t, left, right, &rnl.reclaimMark)
 	if err != nil {
+		t.reclaimMarkClear(root, &rnl.reclaimMark)
 		return false, err
 	}
 	rnlNew := t.mkRootNodeLoc(r)
